@@ -1,20 +1,29 @@
 #!/usr/bin/env python3
-"""Regenerates Appendix C of DESIGN.md (which check reports which seeded change) from seeded/RESULTS.json."""
+"""Regenerates Appendix C of DESIGN.md (which check reports which seeded change) from seeded/RESULTS.json
+(all twelve quick checks per change) and seeded/RESULTS_target.json (target check re-run at the final state)."""
 import json, os, re
 V = "/verif"
 res = json.load(open(os.path.join(V, "seeded", "RESULTS.json")))
+tp = os.path.join(V, "seeded", "RESULTS_target.json")
+tgt = json.load(open(tp)) if os.path.exists(tp) else {}
 props = ["C%02d" % i for i in range(1, 13)]
-lines = ["## Appendix C — seeded changes × checks (quick tier; `X` = concrete failing input, `n` = reported with no-failing-input-found, `.` = quiet)", "",
-         "| change | what it does | " + " | ".join(props) + " |", "|---|---|" + "---|" * len(props)]
-for sid in sorted(res):
+lines = ["## Appendix C — seeded changes × checks (quick tier; `X` = concrete failing input, `n` = reported with no-failing-input-found, `.` = quiet; *at* = the /repo commit the row was evaluated against; *target now* = the targeted property's check re-run against the final state)", "",
+         "| change | what it does | at | " + " | ".join(props) + " | target now |", "|---|---|---|" + "---|" * len(props) + "---|"]
+ids = sorted(d for d in os.listdir(os.path.join(V, "seeded")) if os.path.isdir(os.path.join(V, "seeded", d)))
+for sid in ids:
     meta = json.load(open(os.path.join(V, "seeded", sid, "meta.json")))
     what = meta.get("summary", "")
+    if meta.get("obsolete_after"):
+        what += " (**obsolete since %s**: no longer changes behaviour)" % meta["obsolete_after"]
+    r = res.get(sid)
     row = []
     for p in props:
-        c = res[sid]["checks"].get(p, {})
-        row.append("X" if c.get("violation") and c.get("concrete") else ("n" if c.get("violation") else "."))
-    lines.append("| %s | %s | %s |" % (sid, what, " | ".join(row)))
+        c = (r or {}).get("checks", {}).get(p, {})
+        row.append("?" if r is None else ("X" if c.get("violation") and c.get("concrete") else ("n" if c.get("violation") else ".")))
+    t = tgt.get(sid, {}).get("checks", {})
+    tnow = "; ".join("%s:%s" % (p, "X" if c.get("violation") and c.get("concrete") else ("n" if c.get("violation") else ".")) for p, c in sorted(t.items())) or ("—" if meta.get("obsolete_after") else "")
+    lines.append("| %s | %s | %s | %s | %s |" % (sid, what, (r or {}).get("evaluated_at", ""), " | ".join(row), tnow))
 txt = open(os.path.join(V, "DESIGN.md")).read()
 txt = re.sub(r"\n## Appendix C —.*\Z", "", txt, flags=re.S).rstrip("\n") + "\n\n" + "\n".join(lines) + "\n"
 open(os.path.join(V, "DESIGN.md"), "w").write(txt)
-print("matrix rows:", len(res))
+print("matrix rows:", len(ids))
